@@ -51,6 +51,14 @@ def build_objects(kind, key):
             s_, m0, g0, m1, m2 = sp.symbols("s m0 Gamma0 m1 m2", nonnegative=True)
             out["non-default phsp + name"] = dyn.EnergyDependentWidth(s_, m0, g0, m1, m2, 1, 1, dyn.PhaseSpaceFactorSWave, "G")
             out["default phsp + name"] = dyn.EnergyDependentWidth(s_, m0, g0, m1, m2, 1, 1, name="G")
+        # the unfolded forms are what perform_cached_doit writes to disk: they must pickle as well
+        for name_, obj_ in list(out.items()):
+            try:
+                unfolded = obj_.doit()
+            except Exception:  # noqa: BLE001
+                continue
+            if isinstance(unfolded, sp.Basic) and unfolded != obj_:
+                out[f"{name_} (unfolded)"] = unfolded
         return out
     if kind == "code":
         return {key: code_cases()[key][1]}
@@ -67,6 +75,7 @@ def build_objects(kind, key):
 
         m = make_model(key)
         return {"intensity": m.intensity, "expression": m.expression, "kinematic_variables": dict(m.kinematic_variables),
+                "kinematic_variables (unfolded)": {k: v.doit() for k, v in m.kinematic_variables.items()},
                 "parameter_defaults": dict(m.parameter_defaults), "amplitudes": dict(m.amplitudes), "components": dict(m.components), "model": m}  # fmt: skip
     raise ValueError(kind)
 
